@@ -188,13 +188,20 @@ class Core:
         self.func_summ.add(key)
         th = self.th
         a = f.node.args
-        if a.vararg is not None or a.kwarg is not None or a.kwonlyargs:
+        if a.vararg is not None or a.kwarg is not None:
             return
         params = [p.arg for p in a.posonlyargs + a.args]
-        nreq = len(params) - len(a.defaults)
-        if nreq != len(params) or len(params) > 3:
+        kwonly = sorted(k.arg for k in a.kwonlyargs)
+        if len(params) > 3 or len(kwonly) > 2:
             return
-        qs = [z3.Const(f'{p}!q{len(self.func_summ)}', th.Val) for p in params]
+        # summarised for the full positional arity with every keyword-only parameter passed by name
+        qs = [z3.Const(f'{p}!q{len(self.func_summ)}', th.Val) for p in params + kwonly]
+        suffix = ('_kw_' + '_'.join(kwonly)) if kwonly else ''
+        nq = len(qs)
+        sig = [th.Val] * (nq + 1)
+        f_call = lambda *xs: th.fn(f'call_{nq}{suffix}', *sig, th.Val)(*xs)
+        f_raises = lambda *xs: th.fn(f'craises_{nq}{suffix}', *sig, th.B)(*xs)
+        f_exc = lambda *xs: th.fn(f'cexc_{nq}{suffix}', *sig, th.Exc)(*xs)
         st0 = State(dict(f.env) if f.env else {}, [])
         saved = (self.obligations, self.spec_mode, self.loop_counter, th.fresh_log, self.lemma_sink)
         self.obligations = []          # obligations inside an escaping closure are not obligations of this function
@@ -202,7 +209,7 @@ class Core:
         self.lemma_sink = []
         try:
             self.spec_mode = False
-            outs = self.inline_call(f, [VVal(q) for q in qs], {}, st0, None)
+            outs = self.inline_call(f, [VVal(q) for q in qs[:len(params)]], {k: VVal(q) for k, q in zip(kwonly, qs[len(params):])}, st0, None)
             parts = []
             n = len(qs)
             fresh_names = None
@@ -214,17 +221,17 @@ class Core:
             for r, s in outs:
                 if isinstance(r, Raised):
                     cond = z3.And(s.pc) if s.pc else z3.BoolVal(True)
-                    cons = [th.craises(n)(c, *qs)]
+                    cons = [f_raises(c, *qs)]
                     if not mentions_invented(r.exc.cls):
-                        cons.append(th.cexc(n)(c, *qs) == r.exc.cls)
+                        cons.append(f_exc(c, *qs) == r.exc.cls)
                     parts.append(z3.Implies(cond, z3.And(cons)))
                 else:
                     v = self.toVal(r, s)
                     cond = z3.And(s.pc) if s.pc else z3.BoolVal(True)
-                    cons = [z3.Not(th.craises(n)(c, *qs))]
+                    cons = [z3.Not(f_raises(c, *qs))]
                     if not mentions_invented(v):
                         # (a result that depends on an invented symbol is left unconstrained: weaker, still sound)
-                        cons.append(th.call(n)(c, *qs) == v)
+                        cons.append(f_call(c, *qs) == v)
                     parts.append(z3.Implies(cond, z3.And(cons)))
             fresh = list(th.fresh_log)
             if False:
@@ -238,7 +245,7 @@ class Core:
                     if not bound:
                         self.standing.append(part)
                     elif len(bound) == len(qs):
-                        self.standing.append(z3.ForAll(bound, part, patterns=[th.call(n)(c, *qs), th.craises(n)(c, *qs)]))
+                        self.standing.append(z3.ForAll(bound, part, patterns=[f_call(c, *qs), f_raises(c, *qs)]))
                     else:
                         self.standing.append(z3.ForAll(bound, part))
         except OutOfSubset as e:
